@@ -16,6 +16,7 @@ func init() {
 		Explanation: `R18.1 in drip.(*Writer).Write and Close every forward to the underlying writer is preceded, on every path where a validator is set, by a call of dw.Validate on the same slice, and a non-nil verdict cannot reach the forward; ` +
 			`R18.2 in ValidatingPool.GetWriter's validate closure the block index is incremented on every path (both modes) and in wound mode the verdict is sent before returning; ` +
 			`R18.5 what is forwarded is the drip buffer itself, other data only under dw.offset == 0; R18.3 the relay goroutine is joined before the file writer closes (shared with R16.4); R18.4 the drip buffer, the safekeeper buffer and the block validator's hashing context all use pwr.BlockSize. ` +
+			`R05.4 (shared) the aggregation goroutine keeps, merges or forwards every incoming wound. ` +
 			`NOT decided: that wounds tile the written range in offset order, slicing independence (index arithmetic in drip.Write), block-aligned-prefix pass-through.`,
 		Assumptions: []string{"the underlying writer and the Validate callback are identified as the fields Writer / Validate of drip.Writer"},
 		Run:         runC18,
@@ -77,6 +78,7 @@ func runC18(c *core.Ctx) {
 	c.Rule("R18.5", "only the drip buffer is forwarded, or other data when nothing is pending")
 	c.Rule("R18.4", "drip buffer / safekeeper buffer / validator hashing context are one pwr.BlockSize block")
 	c.Rule("R18.6", "every writer the validating pool hands out validates")
+	ruleAggregationLosesNothing(c, woundKinds(c.P))
 	if gw := c.P.Fn("pwr", "ValidatingPool.GetWriter"); gw == nil {
 		c.Missing("R18.6", "pwr.(*ValidatingPool).GetWriter", "not found")
 	} else {
@@ -129,7 +131,7 @@ func runC18(c *core.Ctx) {
 	}
 	c.Rule("R05.1", "healthy verdict only under index-in-range and strong-hash equality (shared with C05)")
 	if kinds := woundKinds(c.P); len(kinds) >= 4 {
-		ruleHealthyVerdict(c, kinds)
+		ruleHealthyVerdict(c, kinds, false)
 	}
 
 	nfwd := 0
